@@ -815,6 +815,18 @@ func (in *interp) call(st *istate, c *ssa.Call) {
 			case "strings.TrimSuffix":
 				st.env[c] = constv(constant.MakeString(strings.TrimSuffix(s0, s1)), c.Type())
 				return
+			case "strings.CutPrefix", "strings.CutSuffix":
+				var rest string
+				var found bool
+				if name == "strings.CutPrefix" {
+					found = strings.HasPrefix(s0, s1)
+					rest = strings.TrimPrefix(s0, s1)
+				} else {
+					found = strings.HasSuffix(s0, s1)
+					rest = strings.TrimSuffix(s0, s1)
+				}
+				st.env[c] = &aval{k: aStruct, fields: map[string]*aval{"0": constv(constant.MakeString(rest), types.Typ[types.String]), "1": boolv(found)}}
+				return
 			case "strings.TrimLeft":
 				st.env[c] = constv(constant.MakeString(strings.TrimLeft(s0, s1)), c.Type())
 				return
